@@ -2,6 +2,7 @@ package httpgen
 
 import (
 	"fmt"
+	"strconv"
 	"strings"
 
 	"google.golang.org/protobuf/compiler/protogen"
@@ -209,7 +210,7 @@ func (g *Generator) generateOneofMarshalVariants(gf *protogen.GeneratedFile, inf
 		gf.P("case *", wrapperType, ":")
 
 		// Add discriminator value
-		gf.P(`raw["`, info.Discriminator, `"], _ = json.Marshal("`, variant.DiscriminatorVal, `")`)
+		gf.P(`raw["`, info.Discriminator, `"], _ = json.Marshal(`, strconv.Quote(variant.DiscriminatorVal), `)`)
 
 		if info.Flatten && variant.IsMessage {
 			g.generateFlattenedMarshal(gf, variant)
@@ -327,7 +328,7 @@ func (g *Generator) generateOneofUnmarshalVariants(
 	gf.P("switch disc {")
 
 	for _, variant := range info.Variants {
-		gf.P(`case "`, variant.DiscriminatorVal, `":`)
+		gf.P(`case `, strconv.Quote(variant.DiscriminatorVal), `:`)
 
 		if info.Flatten && variant.IsMessage {
 			g.generateFlattenedUnmarshal(gf, variant, info)
